@@ -49,8 +49,10 @@ theorem C08.parked_leaves_block_untouched (n : Node) (ts : Nat) (h : String) (id
   · exact ⟨rfl, rfl, rfl⟩
   · split
     · exact ⟨rfl, rfl, rfl⟩
-    · rename_i n' ha
-      exact applyEvents_fields ha
+    · split
+      · exact ⟨rfl, rfl, rfl⟩
+      · rename_i n' ha
+        exact applyEvents_fields ha
 
 /-- Execution happens only at the account nonce: an accepted call whose transaction was run had
 `nonce = account nonce` (so, with the EVM bumping the nonce by one per accepted run, on-chain nonces of a signer are
@@ -69,8 +71,10 @@ theorem C08.executes_only_at_account_nonce (n : Node) (ts : Nat) (h : String) (i
     · rfl
     · split
       · rfl
-      · rename_i n' ha
-        rw [(applyEvents_fields ha).1]
+      · split
+        · rfl
+        · rename_i n' ha
+          rw [(applyEvents_fields ha).1]
   · split <;> rfl
 
 /-- **Receipts = appended**: when the call is accepted at the account nonce, the number of transactions appended to
